@@ -61,7 +61,7 @@ def grid_of(case):
 
 
 def mc_module(name, params, values, supplies, inits, emit=False):
-    lines = ["---- MODULE %s ----" % name, "EXTENDS Standardiser, Json"]
+    lines = ["---- MODULE %s ----" % name, "EXTENDS StandardiserIncr, Json"]
     lines.append("MCParams == {" + ",\n  ".join(tla_par(p) for p in params) + "}")
     lines.append("MCValues == " + tla_set(values))
     lines.append("MCSupplies == " + tla_set(supplies))
